@@ -170,6 +170,34 @@ fn window(bytes: &[u8], rng: &mut StdRng) -> Vec<u8> {
     v
 }
 
+/// A molecule table with `extras` appended as additional fields (total size and offsets rewritten).
+fn table_with_extra_fields(table: &[u8], extras: &[Vec<u8>]) -> Vec<u8> {
+    let rd = |i: usize| u32::from_le_bytes([table[i], table[i + 1], table[i + 2], table[i + 3]]) as usize;
+    let first = rd(4);
+    let n = first / 4 - 1;
+    let mut offsets: Vec<usize> = (0..n).map(|k| rd(4 + 4 * k)).collect();
+    let body = &table[first..];
+    let shift = 4 * extras.len();
+    for o in offsets.iter_mut() {
+        *o += shift;
+    }
+    let mut end = table.len() + shift;
+    let mut tail = Vec::new();
+    for e in extras {
+        offsets.push(end);
+        end += e.len();
+        tail.extend_from_slice(e);
+    }
+    let mut out = Vec::with_capacity(end);
+    out.extend_from_slice(&(end as u32).to_le_bytes());
+    for o in offsets {
+        out.extend_from_slice(&(o as u32).to_le_bytes());
+    }
+    out.extend_from_slice(body);
+    out.extend_from_slice(&tail);
+    out
+}
+
 fn mutate_bytes(bytes: &[u8], rng: &mut StdRng) -> (String, Vec<u8>) {
     match rng.gen_range(0..100) {
         0..=9 => {
@@ -554,7 +582,40 @@ fn scenario(rng: &mut StdRng, sc: usize, out: Box<dyn std::io::Write>, kv: &Hash
                     .build();
                 (Proto::Lc, "resealed:SendLastStateProof".into(), packed::LightClientMessage::new_builder().set(c).build().as_slice().to_vec())
             }
-            95..=96 => {
+            95 => {
+                // a SendBlock whose Block table carries extra fields (a compatible molecule table may): none, a
+                // well-formed extension, an ill-formed one, several of them
+                let b = rng.gen_range(0..sim.chain.blocks.len());
+                let block = sim.chain.blocks[b].block.data();
+                // the plain four-field table first
+                let v0 = packed::Block::new_builder()
+                    .header(block.header())
+                    .uncles(block.uncles())
+                    .transactions(block.transactions())
+                    .proposals(block.proposals())
+                    .build();
+                let k = rng.gen_range(1..=3usize);
+                let extras: Vec<Vec<u8>> = (0..k)
+                    .map(|_| match rng.gen_range(0..4) {
+                        0 => vec![],
+                        1 => vec![0xff, 0xff, 0xff, 0xff],
+                        2 => packed::Bytes::default().as_slice().to_vec(),
+                        _ => {
+                            let payload: Vec<u8> = (0..rng.gen_range(0..40)).map(|_| rng.gen()).collect();
+                            Pack::<packed::Bytes>::pack(&payload[..]).as_slice().to_vec()
+                        }
+                    })
+                    .collect();
+                let blk = table_with_extra_fields(v0.as_slice(), &extras);
+                // SendBlock { block }: a table with one field; SyncMessage: union item id + item
+                let honest = packed::SyncMessage::new_builder().set(packed::SendBlock::new_builder().block(v0).build()).build();
+                let mut msg = honest.as_slice()[..4].to_vec();
+                msg.extend_from_slice(&((8 + blk.len()) as u32).to_le_bytes());
+                msg.extend_from_slice(&8u32.to_le_bytes());
+                msg.extend_from_slice(&blk);
+                (Proto::Sync, "resealed:SendBlock-extra-fields".into(), msg)
+            }
+            96 => {
                 // well-formed filter-protocol messages with EMPTY vectors at the position the client expects
                 let dump = sim.client().peers.verif_dump();
                 let p = env.peers[i].idx;
